@@ -139,11 +139,16 @@ def gen_env_plan(rng: Rng, tier: str) -> Dict[str, Any]:
     return {"format": 1, "profile": NAME, "kind": "env", "world": world, "sessions": sessions}
 
 
-def gen_plan(rng: Rng, tier: str, kind: str) -> Dict[str, Any]:
+HUGE_VOCAB = {"ranks": 2, "name_explosion": 17000, "vocab": "disjoint", "steps": 2, "fractional": False,
+              "tiny_events": False, "order": "grouped", "meta_noise": False, "flow_p": 0.0, "boundary": False,
+              "base_ts": 1000, "clone_ranks": False, "no_rank_meta": False}
+
+
+def gen_plan(rng: Rng, tier: str, kind: str, hugevocab: bool = False) -> Dict[str, Any]:
     if kind == "history":
         return gen_history_plan(rng, tier)
     if kind == "decode":
-        plan = loader.gen_plan(rng, tier, faulty=False, profile="symtab")
+        plan = loader.gen_plan(rng, tier, faulty=False, profile="symtab", overrides=HUGE_VOCAB if hugevocab else None)
         plan["profile"] = NAME
         plan["kind"] = "decode"
         return plan
